@@ -9,6 +9,8 @@ CONSTANTS
   Alias = FALSE
   K = 0
   DropZero = FALSE
+  Fresh = FALSE
+  BothInstall = FALSE
 VIEW view
-INVARIANTS TypeOK Conserved CounterOK Capped PendCapped ZeroAfterDrain DecisionOK
+INVARIANTS TypeOK Conserved CounterOK Capped PendCapped ZeroAfterDrain DecisionOK OneObject
 CHECK_DEADLOCK FALSE
